@@ -3,6 +3,7 @@ package rules
 import (
 	"fmt"
 	"go/constant"
+	"go/token"
 	"go/types"
 	"os"
 	"sort"
@@ -69,12 +70,66 @@ func asBucketOp(in ssa.Instruction) (bucketOp, bool) {
 	return bucketOp{}, false
 }
 
-// opPaths enumerates acyclic paths to returns; success=true keeps only paths
+// lenFact reads a branch condition of the form len(x.F) ==/!=/> 0 and returns the field
+// name and whether the true edge means "non-empty".
+func lenFact(cond ssa.Value) (field string, trueMeansNonEmpty bool, ok bool) {
+	bo, isBin := cond.(*ssa.BinOp)
+	if !isBin {
+		return "", false, false
+	}
+	x, y := bo.X, bo.Y
+	op := bo.Op
+	if _, isC := x.(*ssa.Const); isC {
+		x, y = y, x
+		switch op {
+		case token.LSS:
+			op = token.GTR
+		case token.GTR:
+			op = token.LSS
+		case token.LEQ:
+			op = token.GEQ
+		case token.GEQ:
+			op = token.LEQ
+		}
+	}
+	call, isCall := x.(*ssa.Call)
+	if !isCall {
+		return "", false, false
+	}
+	bi, isB := call.Call.Value.(*ssa.Builtin)
+	if !isB || bi.Name() != "len" {
+		return "", false, false
+	}
+	n, isInt := ssax.ConstInt(y)
+	if !isInt {
+		return "", false, false
+	}
+	p, _ := ssax.Path(call.Call.Args[0])
+	p = strings.TrimSuffix(p, "*")
+	if i := strings.LastIndex(p, "."); i >= 0 {
+		p = p[i+1:]
+	}
+	switch {
+	case op == token.NEQ && n == 0, op == token.GTR && n == 0, op == token.GEQ && n == 1:
+		return p, true, true
+	case op == token.EQL && n == 0, op == token.LSS && n == 1, op == token.LEQ && n == 0:
+		return p, false, true
+	}
+	return "", false, false
+}
+
+type opPath struct {
+	ops   []bucketOp
+	facts map[string]bool // "empty:F" / "nonempty:F" established by the branches taken
+}
+
+// opPathsF enumerates acyclic paths to returns together with the emptiness facts of
+// receiver fields that the branches on the path establish; successOnly keeps only paths
 // whose returned error is the nil constant (or that return no error).
-func opPaths(f *ssa.Function, successOnly bool) [][]bucketOp {
-	var out [][]bucketOp
-	var dfs func(b *ssa.BasicBlock, cur []bucketOp, seen map[int]bool)
-	dfs = func(b *ssa.BasicBlock, cur []bucketOp, seen map[int]bool) {
+func opPathsF(f *ssa.Function, successOnly bool) []opPath {
+	var out []opPath
+	var dfs func(b *ssa.BasicBlock, cur []bucketOp, facts []string, seen map[int]bool)
+	dfs = func(b *ssa.BasicBlock, cur []bucketOp, facts []string, seen map[int]bool) {
 		if seen[b.Index] {
 			return
 		}
@@ -94,15 +149,38 @@ func opPaths(f *ssa.Function, successOnly bool) [][]bucketOp {
 					}
 				}
 				if success || !successOnly {
-					out = append(out, append([]bucketOp(nil), cur...))
+					fm := map[string]bool{}
+					for _, x := range facts {
+						fm[x] = true
+					}
+					out = append(out, opPath{append([]bucketOp(nil), cur...), fm})
 				}
 			}
 		}
+		if ifi, ok := b.Instrs[len(b.Instrs)-1].(*ssa.If); ok {
+			if fld, tne, ok := lenFact(ifi.Cond); ok {
+				t, e := "nonempty:"+fld, "empty:"+fld
+				if !tne {
+					t, e = e, t
+				}
+				dfs(b.Succs[0], cur, append(append([]string(nil), facts...), t), seen)
+				dfs(b.Succs[1], cur, append(append([]string(nil), facts...), e), seen)
+				return
+			}
+		}
 		for _, s := range b.Succs {
-			dfs(s, cur, seen)
+			dfs(s, cur, facts, seen)
 		}
 	}
-	dfs(f.Blocks[0], nil, map[int]bool{})
+	dfs(f.Blocks[0], nil, nil, map[int]bool{})
+	return out
+}
+
+func opPaths(f *ssa.Function, successOnly bool) [][]bucketOp {
+	var out [][]bucketOp
+	for _, p := range opPathsF(f, successOnly) {
+		out = append(out, p.ops)
+	}
 	return out
 }
 
@@ -150,8 +228,10 @@ func decoderShapes(fn *ssa.Function) map[string]bool {
 	return out
 }
 
-var keysExceptions = map[string]string{
-	"vectorstore.productQuantizedPoint|{NodeKey('q')}": "this path is only taken by an item that ReadFrom produced from an existing 'q' record, at which time its 'v' record is already on disk; WriteTo never deletes 'v'",
+// keysExceptions: a WriteTo path that puts a set of keys none of which IdFromKey accepts is tolerated
+// only under a path condition that makes it harmless.
+var keysExceptions = map[string]struct{ needs, why string }{
+	"vectorstore.productQuantizedPoint|{NodeKey('q')}": {"empty:Vector", "this path is only taken by an item that holds no full vector, i.e. one that ReadFrom produced from an existing 'q' record, at which time its 'v' record is already on disk; WriteTo never deletes 'v'"},
 }
 
 func Keys(w *load.World, c *core.Collector) {
@@ -195,7 +275,8 @@ func Keys(w *load.World, c *core.Collector) {
 				readGets[s] = true
 			}
 		}
-		for _, p := range opPaths(wr, true) {
+		for _, pf := range opPathsF(wr, true) {
+			p := pf.ops
 			puts := shapesOf(p, "Put")
 			if len(puts) == 0 {
 				continue
@@ -213,8 +294,8 @@ func Keys(w *load.World, c *core.Collector) {
 				}
 			}
 			pk := setStr(puts)
-			if why, ok := keysExceptions[tn+"|"+pk]; ok && !k1 {
-				c.Add("KEYS", "K1:"+tn+":"+pk, core.Exception, w.Position(wr.Pos()), why, "C04", "C08")
+			if ex, ok := keysExceptions[tn+"|"+pk]; ok && !k1 && pf.facts[ex.needs] {
+				c.Add("KEYS", "K1:"+tn+":"+pk, core.Exception, w.Position(wr.Pos()), ex.why, "C04", "C08")
 			} else if k1 {
 				c.Add("KEYS", "K1:"+tn+":"+pk, core.OK, w.Position(wr.Pos()), "", "C04", "C08")
 			} else {
@@ -453,37 +534,66 @@ func Flush(w *load.World, c *core.Collector) {
 		}
 	}
 	c.Count("persisted_parameters", len(gets))
-	// (b)+(c): in every caller of a flush anchor, success exits are dominated by the call (or are its result)
-	anchors := func(in ssa.Instruction) (string, bool) {
+	// (b)+(c): in every function that performs a flush anchor — directly or through a helper that
+	// must perform it — every success exit is dominated by the anchor (or is its result)
+	labeller := func(in ssa.Instruction) []string {
 		if _, ok := isFlushCall(in); ok {
-			return "cache-flush", true
+			return []string{"cache-flush"}
 		}
 		call, ok := in.(*ssa.Call)
 		if !ok {
-			return "", false
+			return nil
 		}
 		g := call.Call.StaticCallee()
 		if g == nil {
-			return "", false
+			return nil
 		}
 		k := load.FnKey(g)
 		switch {
-		case flushFns[g] || (g.Origin() != nil && flushFns[g.Origin()]):
-			return "flush:" + k, true
 		case k == "shard.changePointCount", k == "(*shard.IdCounter).Flush":
-			return "counter:" + k, true
-		case strings.HasSuffix(k, ").flush"):
-			return "flush:" + k, true
+			return []string{"counter:" + k}
+		case k == "shard.NewIdCounter":
+			return []string{"build-counter"}
+		case k == "(*shard.IdCounter).NextId", k == "(*shard.IdCounter).FreeId":
+			return []string{"alloc"}
+		case flushFns[g] || (g.Origin() != nil && flushFns[g.Origin()]), strings.HasSuffix(k, ").flush"):
+			return []string{"flush:" + k}
 		}
-		return "", false
+		return nil
+	}
+	sums := ssax.NewSummaries(labeller, func(f *ssa.Function) []ssa.Instruction {
+		var out []ssa.Instruction
+		for _, e := range successExits(f) {
+			out = append(out, e.In)
+		}
+		if len(out) == 0 {
+			// functions without an error result: every return is a success exit
+			for _, b := range f.Blocks {
+				if r, ok := b.Instrs[len(b.Instrs)-1].(*ssa.Return); ok && b != f.Recover {
+					out = append(out, r)
+				}
+			}
+		}
+		return out
+	})
+	isAnchor := func(l string) bool {
+		return l == "cache-flush" || strings.HasPrefix(l, "flush:") || strings.HasPrefix(l, "counter:")
 	}
 	nDrivers := 0
 	for _, f := range w.Fns {
-		var calls []ssa.Instruction
+		type site struct {
+			in   ssa.Instruction
+			name string
+		}
+		var calls []site
 		for _, b := range f.Blocks {
 			for _, in := range b.Instrs {
-				if _, ok := anchors(in); ok {
-					calls = append(calls, in)
+				seenL := map[string]bool{}
+				for _, l := range sums.At(in) {
+					if isAnchor(l) && !seenL[l] {
+						seenL[l] = true
+						calls = append(calls, site{in, l})
+					}
 				}
 			}
 		}
@@ -492,81 +602,60 @@ func Flush(w *load.World, c *core.Collector) {
 		}
 		nDrivers++
 		exits := successExits(f)
-		for _, call := range calls {
-			name, _ := anchors(call)
-			key := fmt.Sprintf("on-success:%s@%s", name, load.FnKey(f))
+		for _, cs := range calls {
+			key := fmt.Sprintf("on-success:%s@%s", cs.name, load.FnKey(f))
 			bad := ""
 			for _, ex := range exits {
-				if ex.Val == call.(ssa.Value) {
+				if v, ok := cs.in.(ssa.Value); ok && ex.Val == v {
 					continue
 				}
-				if ssax.Precedes(call, ex.In) {
+				covered := false
+				for _, other := range calls {
+					// the same anchor performed on another path also covers the exit
+					if other.name == cs.name && (ssax.Precedes(other.in, ex.In) || func() bool { v, ok := other.in.(ssa.Value); return ok && ex.Val == v }()) {
+						covered = true
+					}
+				}
+				if covered {
 					continue
 				}
 				if os.Getenv("SEMA_DEBUG") != "" {
 					fmt.Fprintf(os.Stderr, "DEBUG exit %s val=%v (%T)\n", w.At(ex.In), ex.Val, ex.Val)
 				}
-				// the exit may be unreachable from the call on paths that failed before: only
-				// exits that can signal success count; they must be dominated by the call
 				bad = w.At(ex.In)
 			}
 			if bad != "" {
-				c.Add("FLUSH", key, core.Violation, bad, "a success exit of "+load.FnKey(f)+" is reachable without "+name+": acknowledged changes would not be on disk", props...)
+				c.Add("FLUSH", key, core.Violation, bad, "a success exit of "+load.FnKey(f)+" is reachable without "+cs.name+": acknowledged changes would not be on disk", props...)
 			} else {
-				c.Add("FLUSH", key, core.OK, w.At(call), "", props...)
+				c.Add("FLUSH", key, core.OK, w.At(cs.in), "", props...)
 			}
 		}
 	}
 	c.Count("flush_drivers", nDrivers)
-	// presence: whoever builds an id allocator must flush it; whoever allocates or frees ids must adjust the point count
+	// presence: whoever builds an id allocator must flush it; whoever allocates or frees ids must adjust
+	// the point count (in its own body, its literals or its helpers)
 	for _, f := range w.Fns {
-		var builds, flushes, counts, allocs bool
-		var where string
+		builds := false
+		where := ""
 		for _, b := range f.Blocks {
 			for _, in := range b.Instrs {
-				call, ok := in.(*ssa.Call)
-				if !ok {
-					continue
-				}
-				g := call.Call.StaticCallee()
-				if g == nil {
-					continue
-				}
-				switch load.FnKey(g) {
-				case "shard.NewIdCounter":
-					builds = true
-					where = w.At(in)
-				case "(*shard.IdCounter).Flush":
-					flushes = true
-				case "shard.changePointCount":
-					counts = true
+				for _, l := range labeller(in) {
+					if l == "build-counter" {
+						builds = true
+						where = w.At(in)
+					}
 				}
 			}
 		}
 		if !builds {
 			continue
 		}
-		for _, g := range w.Fns {
-			if g.Parent() == f || g == f {
-				for _, b := range g.Blocks {
-					for _, in := range b.Instrs {
-						if call, ok := in.(*ssa.Call); ok {
-							if sc := call.Call.StaticCallee(); sc != nil {
-								switch load.FnKey(sc) {
-								case "(*shard.IdCounter).NextId", "(*shard.IdCounter).FreeId":
-									allocs = true
-								}
-							}
-						}
-					}
-				}
-			}
-		}
+		may := sums.May(f)
 		key := "counters-present:" + load.FnKey(f)
 		switch {
-		case !flushes:
+		case !may["counter:(*shard.IdCounter).Flush"]:
 			c.Add("FLUSH", key, core.Violation, where, "an id allocator is created in this transaction but never flushed: allocated or freed node ids are forgotten", "C01", "C08", "C10")
-		case allocs && !counts:
+		case may["alloc"] && !may["counter:shard.changePointCount"]:
 			c.Add("FLUSH", key, core.Violation, where, "node ids are allocated or freed in this transaction but the point count is not adjusted", "C01", "C08")
 		default:
 			c.Add("FLUSH", key, core.OK, where, "", "C01", "C08", "C10")
